@@ -22,7 +22,7 @@ RULE = (
     "max_iterations 1..50 and tolerance 1e-8..1e-1, estimate in {zero, exact eigenbasis ascending / permuted / sign-flipped, random orthonormal, perturbed eigenbasis}, "
     "diagonal flag). Non-trivial = n >= 2 and (QR with a non-zero estimate, or eigh on a non-diagonal matrix). Distinct = canonical JSON."
 )
-BOUNDS = "n <= 24 / 64, QR max_iterations <= 50"
+BOUNDS = "n <= 24 / 64, QR max_iterations <= 50; scales 1e-6..1e6 plus 1e+-20..1e+-30 (float32) and up to 1e+-250 (float64)"
 TOLERANCES = "K = 64: ||Q^T Q - I||_F <= K n u; offdiag(Q^T A Q) and Rayleigh order <= K n u ||A||; QR basis: K n u prod cond(A Q_j), informative only below 0.05"
 ASSUMPTIONS = ["float64 torch.linalg.qr / eigh as reference arithmetic"]
 NONTRIVIAL_FLOOR = 100
